@@ -120,9 +120,11 @@ class Decimal(SimpleModel):
         msl = kwargs.get('max_str_len', None)
         if msl is None:
             if td is not None:
-                kwargs['max_str_len'] = td + 2
+                kwargs['max_str_len'] = td + 3
                 # + 1 for decimal separator
                 # + 1 for negative sign
+                # + 1 for the zero before the separator ("-0.12345" has five
+                #     digits as far as total_digits is concerned)
 
         else:
             kwargs['max_str_len'] = msl
